@@ -470,8 +470,15 @@ def _valid_cookie_name(key):
     )
 
 
+# outside the double quotes added by _value_quote a space would end the
+# attribute value when the header is parsed again, so it is escaped as well
+_path_escape_map = dict(_escape_map)
+_path_escape_map[ord(" ")] = b"\\040"
+_path_escape_char = _path_escape_map.__getitem__
+
+
 def _path_quote(v):
-    return b"".join(map(_escape_char, v))
+    return b"".join(map(_path_escape_char, v))
 
 
 _domain_quote = _path_quote
